@@ -944,6 +944,9 @@ func (m *engineImpl) crashRestart(role string) string {
 	}
 	if err := m.openStore(role); err != nil {
 		m.store = nil
+		if os.Getenv("VERIF_LOG") != "" {
+			fmt.Fprintln(os.Stderr, "reopen: open error:", err)
+		}
 		return "err open"
 	}
 	return "ok"
